@@ -102,23 +102,19 @@ func HarnessC01ClientStream() {
 	} else {
 		trailer[grpcHeaderStatus] = []string{"0"}
 	}
-	d := c04Duplex(io.NopCloser(&wholeReader{data: sink.b}), trailer)
-	er := envelopeReader{reader: d, codec: &byteCodec{}, bufferPool: bp, compressionPool: pool}
-	var inner StreamingClientConn
-	if proto == 0 {
-		inner = &connectStreamingClientConn{duplexCall: d, bufferPool: bp, codec: &byteCodec{},
-			unmarshaler:    connectStreamingUnmarshaler{envelopeReader: er},
-			responseHeader: make(http.Header), responseTrailer: make(http.Header)}
-	} else {
-		inner = &grpcClientConn{duplexCall: d, bufferPool: bp, protobuf: &byteCodec{},
-			unmarshaler:    grpcUnmarshaler{envelopeReader: er},
-			responseHeader: make(http.Header), responseTrailer: make(http.Header),
-			readTrailers: func(_ *grpcUnmarshaler, call *duplexHTTPCall) http.Header {
-				_ = discard(call)
-				return call.ResponseTrailer()
-			}}
+	// the receiving side is the real client, through the public API
+	header := http.Header{"Content-Type": {[]string{"application/connect+proto", "application/grpc+proto"}[proto]}}
+	if pool != nil {
+		header.Set([]string{connectStreamingHeaderCompression, grpcHeaderCompression}[proto], "gzip")
 	}
-	stream := &ServerStreamForClient[[]byte]{conn: wrapClientConnWithCodedErrors(inner)}
+	resp := &http.Response{StatusCode: 200, Status: "200 OK", ProtoMajor: 2, Header: header, Trailer: trailer, Body: io.NopCloser(&wholeReader{data: sink.b})}
+	client := NewClient[[]byte, []byte](&cannedTransport{resp: resp}, stackURL, stackClientOptions(proto, c08XorClient("gzip"))...)
+	in := []byte{1}
+	stream, serr := client.CallServerStream(context.Background(), NewRequest(&in))
+	check(serr == nil, "starting the stream succeeds")
+	if serr != nil {
+		return
+	}
 	for i := range msgs {
 		ok := stream.Receive()
 		check(ok, "every message sent is received")
@@ -243,7 +239,7 @@ func HarnessC01BidiFullStack() {
 				return err
 			}
 		}
-	}, WithCodec(&stackCodec{}), WithCompressMinBytes(minBytes), c08XorHandler("gzip"))
+	}, c01HandlerOptions(minBytes)...)
 	copts := []ClientOption{WithCodec(&stackCodec{}), WithCompressMinBytes(minBytes), c08XorClient("gzip")}
 	if compress {
 		copts = append(copts, WithSendCompression("gzip"))
@@ -281,4 +277,15 @@ func HarnessC01BidiFullStack() {
 		}
 	}
 	_ = stream.CloseResponse()
+}
+
+// c01HandlerOptions: the handler may support an algorithm the client lacks
+// and whose name is contained in one the client accepts ("zip" in "gzip"):
+// both sides must still be able to decode what the other sends.
+func c01HandlerOptions(minBytes int) []HandlerOption {
+	opts := []HandlerOption{WithCodec(&stackCodec{}), WithCompressMinBytes(minBytes), c08XorHandler("gzip")}
+	if nondetBool("handlerAlsoHasZip") {
+		opts = append(opts, c08XorHandler("zip"))
+	}
+	return opts
 }
